@@ -360,11 +360,18 @@ def install_seams(sim: Sim):
     from . import exec as _ex
     mono0, wall0 = _ex.T_IMPORT[0] + 0.5, _ex.T_IMPORT[1] + 0.5
     threading.Timer = SimTimer
-    _time.time = lambda: wall0 + SIM.vtime
-    _time.monotonic = lambda: mono0 + SIM.vtime
-    _time.perf_counter = lambda: mono0 + SIM.vtime
-    _time.time_ns = lambda: int((wall0 + SIM.vtime) * 1e9)
-    _time.monotonic_ns = lambda: int((mono0 + SIM.vtime) * 1e9)
+
+    def _now():
+        # reading the clock takes time: two reads never see the same instant (a frozen clock would turn every
+        # "poll until the deadline has passed" loop of the standard library into a spin)
+        SIM.vtime += 1e-6
+        return SIM.vtime
+
+    _time.time = lambda: wall0 + _now()
+    _time.monotonic = lambda: mono0 + _now()
+    _time.perf_counter = lambda: mono0 + _now()
+    _time.time_ns = lambda: int((wall0 + _now()) * 1e9)
+    _time.monotonic_ns = lambda: int((mono0 + _now()) * 1e9)
 
     def _sleep(seconds):
         SIM.event("sleep", seconds=float(seconds))
